@@ -78,6 +78,45 @@ Definition replay_event (r : rp) (e : val) : rp :=
   | _ => add_fail r [finding K_BAD (bs "sched-event") e (VL [])]
   end.
 
+(* ---- framing-independent replay of data polls ----
+   How the bytes are cut into frames is no part of C10 / C11 (a writer may merge a short flushed chunk
+   into one still queued; a reader may hand over several queued chunks at once): the byte streams of
+   model and implementation are aligned, not their frames. sur = bytes the model has delivered beyond
+   what the implementation has. *)
+Record rps := { s_r : rp; s_sur : bytes }.
+Fixpoint pull_model (fuel : nat) (w : N) (need : N) (k : kst) (sur : bytes) : option (kst * bytes) :=
+  if need <=? lenN sur then Some (k, sur) else
+  match fuel with
+  | O => None
+  | S f =>
+      match kstep k (C_poll w) with
+      | Some (k', RPoll (Some (Some (Some d1)))) => pull_model f w need k' (sur ++ d1)
+      | _ => None
+      end
+  end.
+Definition with_k (r : rp) (k : kst) : rp :=
+  {| rp_k := k; rp_idx := rp_idx r; rp_applied := rp_applied r; rp_res := rp_res r; rp_fail := rp_fail r |}.
+Definition replay_event2 (x : rps) (e : val) : rps :=
+  let r := s_r x in
+  match e with
+  | VL [VN 3; VN w; VB d] =>                  (* a consumer poll that delivered d *)
+      match pull_model (S (List.length d)) w (lenN d) (rp_k r) (s_sur x) with
+      | Some (k', sur) =>
+          if starts_with d sur
+          then {| s_r := with_k r k'; s_sur := skipn (List.length d) sur |}
+          else {| s_r := add_fail r [finding K_DIVERGE F_X_TRACE (VL [VN 3; VN w; VB (firstn (List.length d) sur)]) (VL [VN 3; VN w; VB d])];
+                  s_sur := s_sur x |}
+      | None => {| s_r := add_fail r [finding K_DIVERGE F_X_TRACE (VB (bs "the model has fewer bytes to deliver")) (VL [VN 3; VN w; VB d])];
+                   s_sur := s_sur x |}
+      end
+  | VL [VN 3; VN w; res] =>                   (* Pending, end or error: nothing may be outstanding *)
+      match s_sur x with
+      | _ :: _ => {| s_r := add_fail r [finding K_DIVERGE F_X_TRACE (VB (bs "the model has delivered more bytes")) (VL [VN 3; VN w; res])]; s_sur := s_sur x |}
+      | [] => {| s_r := replay_event r e; s_sur := [] |}
+      end
+  | _ => {| s_r := replay_event r e; s_sur := s_sur x |}
+  end.
+
 (* ---- oracles over the executed trace alone (no model state): the outcome clauses of C10 / C11 ---- *)
 Record tr := { t_acc : bytes; t_del : bytes; t_abort : bool; t_alive : bool; t_term : option bool (* true = clean end *);
                t_fail : list string;
@@ -175,10 +214,11 @@ Definition run_sched (v : val) : val :=
       | Some prog =>
           let r0 := {| rp_k := kinit cap prog; rp_idx := 0; rp_applied := false; rp_res := None; rp_fail := [] |} in
           (* the invariant J is evaluated after every event, not only at the end *)
-          let rf := fold_left (fun r e => let r' := replay_event r e in
-                                          if j_holds (rp_k r') then r'
-                                          else add_fail r' [xclause "parked-consumer-with-data-or-termination-pending-and-no-wake-in-flight"])
-                              trace r0 in
+          let rf := s_r (fold_left (fun x e => let x' := replay_event2 x e in
+                                          if j_holds (rp_k (s_r x')) then x'
+                                          else {| s_r := add_fail (s_r x') [xclause "parked-consumer-with-data-or-termination-pending-and-no-wake-in-flight"];
+                                                  s_sur := s_sur x' |})
+                              trace {| s_r := r0; s_sur := [] |}) in
           let tag := match k_cons (rp_k rf) with CDone => bs "consumer-done" | CParked _ => bs "consumer-parked" | CRun => bs "consumer-running" end
                      ++ (match c_st (k_s (rp_k rf)) with SErr => bs ":err" | SFused => bs ":fused" | SOk _ _ true => bs ":dropped" | SOk _ _ false => bs ":open" end) in
           VL (finding K_TAG tag (VL []) (VL [])
